@@ -80,7 +80,7 @@ macro "scalar_unfold" : tactic => `(tactic| (
   try simp [specLower, specLift, joinConv,
     eval, castSem, implSem, binSem, appSem, wrapTo, mk, Val.ext, litVal, promote, common,
     truthy, boolVal, expect, reinterpret, rustLossless, Lang.strict, validScalar,
-    Ty.signed, Ty.kind, Ty.width, Ty.intLike, Ty.memBits, trunc, sext, reprVal, reprTy, coreTy, coreVal, embed,
+    Ty.signed, Ty.kind, Ty.width, Ty.intLike, Ty.memBits, trunc, sext, reprVal, reprTy, coreTy, coreVal, slotTy, slotVal, embed,
     lower, lift, store, load, liftDefined, loadDefined, scalarValue, WTy.valid, WTy.width, WTy.core, WTy.signed,
     WTy.memBits, Core.width, ite_eq_iff_imp]))
 
